@@ -3487,6 +3487,127 @@ impl<F: VfsFile> BPlusTree<F> {
 	}
 }
 
+/// Verification read-out (compiled only with `--cfg surrealkv_verif`): classify every page
+/// of the file as reachable from the root, on the free list, or neither. No tree logic.
+#[cfg(surrealkv_verif)]
+#[derive(Debug, Clone, Default, PartialEq, Eq)]
+pub struct PageAudit {
+	pub total_pages: u64,
+	pub node_pages: u64,
+	pub overflow_pages: u64,
+	pub trunk_pages: u64,
+	pub free_entries: u64,
+	pub header_free_page_count: u64,
+	pub leaked: Vec<u64>,
+	pub doubly_used: Vec<u64>,
+	pub problems: Vec<String>,
+	pub height: u64,
+}
+
+#[cfg(surrealkv_verif)]
+impl<F: VfsFile> BPlusTree<F> {
+	pub fn verif_page_audit(&mut self) -> Result<PageAudit> {
+		use std::collections::HashMap;
+		let mut a = PageAudit {
+			total_pages: self.header.total_pages,
+			header_free_page_count: self.header.free_page_count as u64,
+			..Default::default()
+		};
+		let mut owner: HashMap<u64, &'static str> = HashMap::new();
+		let mut claim = |a: &mut PageAudit, off: u64, what: &'static str| {
+			if off % PAGE_SIZE as u64 != 0 || off == 0 || off >= a.total_pages * PAGE_SIZE as u64 {
+				a.problems.push(format!("{what} page offset {off} out of range"));
+				return false;
+			}
+			if owner.insert(off, what).is_some() {
+				a.doubly_used.push(off / PAGE_SIZE as u64);
+				return false;
+			}
+			true
+		};
+		// tree nodes, depth first; also collect the leaves in key order
+		let mut leaves_in_order: Vec<(u64, u64, u64)> = Vec::new();
+		let mut stack = vec![(self.header.root_offset, 1u64)];
+		while let Some((off, depth)) = stack.pop() {
+			if !claim(&mut a, off, "node") {
+				continue;
+			}
+			a.node_pages += 1;
+			a.height = a.height.max(depth);
+			let node = self.read_node(off)?;
+			let mut chains: Vec<u64> = Vec::new();
+			match node.as_ref() {
+				NodeType::Internal(n) => {
+					if n.children.len() != n.keys.len() + 1 {
+						a.problems.push(format!("internal node {off}: {} keys, {} children", n.keys.len(), n.children.len()));
+					}
+					for c in n.children.iter().rev() {
+						stack.push((*c, depth + 1));
+					}
+					chains.extend(n.key_overflows.iter().copied().filter(|o| *o != 0));
+				}
+				NodeType::Leaf(l) => {
+					leaves_in_order.push((off, l.prev_leaf, l.next_leaf));
+					chains.extend(l.cell_overflows.iter().copied().filter(|o| *o != 0));
+				}
+				NodeType::Overflow(_) => a.problems.push(format!("overflow page {off} linked as a tree node")),
+			}
+			for first in chains {
+				let mut cur = first;
+				while cur != 0 {
+					if !claim(&mut a, cur, "overflow") {
+						break;
+					}
+					a.overflow_pages += 1;
+					match self.read_node(cur)?.as_ref() {
+						NodeType::Overflow(o) => cur = o.next_overflow,
+						_ => {
+							a.problems.push(format!("overflow chain reaches non-overflow page {cur}"));
+							break;
+						}
+					}
+				}
+			}
+		}
+		// leaf chain must match the in-order leaves
+		if let Some(first) = leaves_in_order.first() {
+			if first.0 != self.header.first_leaf_offset {
+				a.problems.push(format!("first_leaf_offset {} but leftmost leaf is {}", self.header.first_leaf_offset, first.0));
+			}
+		}
+		for (i, (off, prev, next)) in leaves_in_order.iter().enumerate() {
+			let exp_prev = if i == 0 { 0 } else { leaves_in_order[i - 1].0 };
+			let exp_next = leaves_in_order.get(i + 1).map_or(0, |l| l.0);
+			if *prev != exp_prev || *next != exp_next {
+				a.problems.push(format!("leaf {off}: prev/next = {prev}/{next}, expected {exp_prev}/{exp_next}"));
+			}
+		}
+		// free list
+		let mut trunk = self.header.trunk_page_head;
+		while trunk != 0 {
+			if !claim(&mut a, trunk, "trunk") {
+				break;
+			}
+			a.trunk_pages += 1;
+			let t = self.read_trunk_page(trunk)?;
+			for p in &t.free_pages {
+				a.free_entries += 1;
+				claim(&mut a, *p as u64 * PAGE_SIZE as u64, "free");
+			}
+			trunk = t.next_trunk;
+		}
+		if a.free_entries != a.header_free_page_count {
+			a.problems.push(format!("header free_page_count {} but {} entries on the free list", a.header_free_page_count, a.free_entries));
+		}
+		for page in 1..a.total_pages {
+			if !owner.contains_key(&(page * PAGE_SIZE as u64)) {
+				a.leaked.push(page);
+			}
+		}
+		Ok(a)
+	}
+}
+
 #[cfg(test)]
 mod tests {
 	use std::fs::File;
